@@ -13,8 +13,6 @@ theorem wf_removeWatcher (t : Tree) (e w : Pid) (h : WF t) : WF (t.removeWatcher
     have := h.key_id k
     grind
   · simpa using h.counter
-  · exact names_live_modNode _ _ _ (fun _ => rfl) (fun _ => rfl)
-      (names_live_modNode _ _ _ (fun _ => rfl) (fun _ => rfl) h.names_live)
   · have := h.wval
     grind
   · have := h.eval
@@ -34,7 +32,6 @@ theorem wf_removeDescendant (t : Tree) (a c : Nat) (h : WF t) : WF (t.removeDesc
     have := h.key_id k
     grind
   · simpa using h.counter
-  · exact names_live_modNode _ _ _ (fun _ => rfl) (fun _ => rfl) h.names_live
   · have := h.wval
     grind
   · have := h.eval
@@ -60,8 +57,6 @@ theorem wf_addWatcher (t : Tree) (p w : Pid) (h : WF t) : WF (t.addWatcher p w) 
     have := h.key_id k
     grind
   · simpa using h.counter
-  · exact names_live_modNode _ _ _ (fun _ => rfl) (fun _ => rfl)
-      (names_live_modNode _ _ _ (fun _ => rfl) (fun _ => rfl) h.names_live)
   · have := h.wval
     grind
   · have := h.eval
